@@ -4,15 +4,17 @@ namespace Chunk
 
 def sumSizes (ps : List Piece) : Nat := (ps.map Piece.size).sum
 
-/-- all reports written so far, in order -/
+def sumEv (ps : List EvPiece) : Nat := (ps.map EvPiece.size).sum
+
+/-- all attribute reports written so far, in order -/
 def St.flat (s : St) : List Piece := (s.done.reverse.flatMap (·.pieces)) ++ s.cur.reverse
 
-/-- invariant of the responder state between two reports -/
+/-- invariant of the responder state between two attribute reports -/
 structure Inv (c : Cfg) (s : St) : Prop where
   usedEq : s.used = c.hdr + c.arrOpen + sumSizes s.cur
   usedLe : s.used ≤ c.limit
   doneOk : ∀ ch ∈ s.done, ch.more = true ∧ ch.size ≤ c.cap ∧
-    ch.size = c.hdr + c.arrOpen + sumSizes ch.pieces + c.trailerMore
+    ch.size = c.hdr + c.arrOpen + sumSizes ch.pieces + c.trailerMore ∧ ch.events = []
   doneNonempty : ∀ ch ∈ s.done, ch.pieces ≠ []
 
 theorem sumSizes_cons (p : Piece) (ps : List Piece) : sumSizes (p :: ps) = p.size + sumSizes ps := by
@@ -21,6 +23,9 @@ theorem sumSizes_cons (p : Piece) (ps : List Piece) : sumSizes (p :: ps) = p.siz
 theorem sumSizes_reverse (ps : List Piece) : sumSizes ps.reverse = sumSizes ps := by
   simp [sumSizes, List.sum_reverse]
 
+theorem sumEv_cons (p : EvPiece) (ps : List EvPiece) : sumEv (p :: ps) = p.size + sumEv ps := by
+  simp [sumEv]
+
 theorem limit_le (c : Cfg) (h : c.WF) : c.limit + c.reserve + c.structReserve = c.cap := by
   have := h.room
   unfold Cfg.limit; omega
@@ -28,201 +33,483 @@ theorem limit_le (c : Cfg) (h : c.WF) : c.limit + c.reserve + c.structReserve = 
 theorem inv_init (c : Cfg) (h : c.WF) : Inv c (St.init c) := by
   refine ⟨by simp [St.init, sumSizes], h.start, ?_, ?_⟩ <;> simp [St.init]
 
-/-- `put` appends exactly the report to the stream and keeps the invariant -/
-theorem put_ok {c : Cfg} {s s' : St} {p : Piece} (hw : c.WF) (h : Inv c s)
-    (hp : put c s p = .ok s') : Inv c s' ∧ s'.cur ≠ [] ∧ s'.flat = s.flat ++ [p] := by
-  unfold put at hp
-  split at hp
-  · rename_i hfit
-    injection hp with hp; subst hp
-    refine ⟨⟨?_, ?_, h.doneOk, h.doneNonempty⟩, ?_, ?_⟩
-    · simp only [sumSizes_cons]; have := h.usedEq; omega
-    · exact hfit
-    · simp
-    · simp [St.flat]
-  · rename_i hnofit
-    simp only at hp
-    split at hp
-    · rename_i hfit2
-      injection hp with hp; subst hp
-      have hlim := limit_le c hw
-      have hcur : s.cur ≠ [] := by
-        intro h0
-        have := h.usedEq
-        rw [h0] at this
-        simp only [sumSizes, List.map_nil, List.sum_nil] at this
-        omega
-      refine ⟨⟨?_, ?_, ?_, ?_⟩, ?_, ?_⟩
-      · simp [St.flush, sumSizes]
-      · exact hfit2
-      · intro ch hch
-        simp only [St.flush, List.mem_cons] at hch
-        rcases hch with rfl | hch
-        · refine ⟨rfl, ?_, ?_⟩
-          · have := h.usedLe; have := hw.trailerMore; simp only; omega
-          · simp only [sumSizes_reverse]; have := h.usedEq; omega
-        · exact h.doneOk ch hch
-      · intro ch hch
-        simp only [St.flush, List.mem_cons] at hch
-        rcases hch with rfl | hch
-        · simpa using hcur
-        · exact h.doneNonempty ch hch
-      · simp
-      · simp [St.flat, St.flush]
-    · simp at hp
+/-- writing a report that has room appends exactly that report -/
+theorem write_ok {c : Cfg} {s : St} (p : Piece) (h : Inv c s) (hfit : s.used + p.size ≤ c.limit) :
+    Inv c (s.write p) ∧ (s.write p).flat = s.flat ++ [p] := by
+  refine ⟨⟨?_, hfit, h.doneOk, h.doneNonempty⟩, ?_⟩
+  · simp only [St.write, sumSizes_cons]; have := h.usedEq; omega
+  · simp [St.write, St.flat]
 
-/-- a report that fits an empty chunk is always placed -/
-theorem put_fits {c : Cfg} (s : St) (p : Piece) (hf : c.hdr + c.arrOpen + p.size ≤ c.limit) :
-    ∃ s', put c s p = .ok s' := by
-  unfold put
+/-- the `NoSpace` arm: the chunk is sent unless it is empty; afterwards the open chunk is empty -/
+theorem next_ok {c : Cfg} {s : St} (hw : c.WF) (h : Inv c s) :
+    Inv c (s.next c) ∧ (s.next c).flat = s.flat ∧ (s.next c).used = c.hdr + c.arrOpen := by
+  unfold St.next
   split
-  · exact ⟨_, rfl⟩
-  · first
-      | exact ⟨_, rfl⟩
-      | (split
-         · exact ⟨_, rfl⟩
-         · rename_i h2; exact absurd hf h2)
-
-/-- a report that does not fit an empty chunk makes the retry loop spin forever -/
-theorem put_oversize {c : Cfg} {s : St} (h : Inv c s) (p : Piece)
-    (hf : c.limit < c.hdr + c.arrOpen + p.size) : put c s p = .error .loops := by
-  unfold put
-  have := h.usedEq
-  split
-  · omega
-  · split
-    · omega
-    · rfl
-
-
-/-- the per-element reports of a streamed list, from index `k` on -/
-def elemPieces (id : Nat) (k : Nat) (es : List Nat) : List Piece :=
-  (es.zipIdx k).map fun (e, i) => .listElem id i e
-
-theorem elemPieces_cons (id k e : Nat) (es : List Nat) :
-    elemPieces id k (e :: es) = .listElem id k e :: elemPieces id (k + 1) es := by
-  simp [elemPieces, List.zipIdx_cons]
-
-theorem putElems_ok {c : Cfg} (hw : c.WF) (id : Nat) : ∀ (es : List Nat) (k : Nat) (s s' : St),
-    Inv c s → s.cur ≠ [] → putElems c id k es s = .ok s' →
-    Inv c s' ∧ s'.cur ≠ [] ∧ s'.flat = s.flat ++ elemPieces id k es := by
-  intro es
-  induction es with
-  | nil => intro k s s' h hc hp; simp [putElems] at hp; subst hp; simp [elemPieces, h, hc]
-  | cons e es ih =>
-    intro k s s' h hc hp
-    simp only [putElems] at hp
-    cases hput : put c s (.listElem id k e) with
-    | error err => rw [hput] at hp; simp at hp
-    | ok s1 =>
-      rw [hput] at hp
-      simp only at hp
-      obtain ⟨h1, c1, f1⟩ := put_ok hw h hput
-      obtain ⟨h2, c2, f2⟩ := ih (k + 1) s1 s' h1 c1 hp
-      refine ⟨h2, c2, ?_⟩
-      rw [f2, f1, elemPieces_cons]; simp
-
-theorem putElems_fits {c : Cfg} (id : Nat) : ∀ (es : List Nat) (k : Nat) (s : St),
-    (∀ e ∈ es, c.hdr + c.arrOpen + e ≤ c.limit) → ∃ s', putElems c id k es s = .ok s' := by
-  intro es
-  induction es with
-  | nil => intro k s _; exact ⟨s, rfl⟩
-  | cons e es ih =>
-    intro k s hf
-    simp only [putElems]
-    obtain ⟨s1, h1⟩ := put_fits s (.listElem id k e) (by simpa [Piece.size] using hf e (by simp))
-    rw [h1]
-    exact ih (k + 1) s1 (fun e' he' => hf e' (by simp [he']))
-
-theorem pieces_split_eq (id whole empty : Nat) (elems : List Nat) (probe : Nat) :
-    (Item.list id whole empty elems probe).pieces true = .listStart id empty :: elemPieces id 0 elems := by
-  simp [Item.pieces, elemPieces]
-
-/-- the end-of-list probe adds no report; it may close the (non-empty) chunk -/
-theorem endProbe_ok {c : Cfg} (hw : c.WF) {s : St} (probe : Nat) (h : Inv c s) (hc : s.cur ≠ []) :
-    Inv c (endProbe c s probe) ∧ (endProbe c s probe).flat = s.flat := by
-  unfold endProbe
-  split
-  · exact ⟨h, rfl⟩
-  · have hlim := limit_le c hw
-    refine ⟨⟨?_, hw.start, ?_, ?_⟩, ?_⟩
+  · rename_i hf
+    refine ⟨h, rfl, ?_⟩
+    simpa [St.fresh] using hf
+  · rename_i hf
+    have hne : s.used ≠ c.hdr + c.arrOpen := by simpa [St.fresh] using hf
+    have hcur : s.cur ≠ [] := by
+      intro h0
+      have := h.usedEq
+      rw [h0] at this
+      simp only [sumSizes, List.map_nil, List.sum_nil] at this
+      omega
+    have hlim := limit_le c hw
+    refine ⟨⟨?_, hw.start, ?_, ?_⟩, ?_, rfl⟩
     · simp [St.flush, sumSizes]
     · intro ch hch
       simp only [St.flush, List.mem_cons] at hch
       rcases hch with rfl | hch
-      · refine ⟨rfl, ?_, ?_⟩
+      · refine ⟨rfl, ?_, ?_, rfl⟩
         · have := h.usedLe; have := hw.trailerMore; simp only; omega
         · simp only [sumSizes_reverse]; have := h.usedEq; omega
       · exact h.doneOk ch hch
     · intro ch hch
       simp only [St.flush, List.mem_cons] at hch
       rcases hch with rfl | hch
-      · simpa using hc
+      · simpa using hcur
       · exact h.doneNonempty ch hch
     · simp [St.flat, St.flush]
 
-/-- one item contributes exactly its reports (in whole or streamed form), once, in order -/
+theorem room_some {c : Cfg} {s s' : St} {n : Nat} (hw : c.WF) (h : Inv c s) (hr : room c s n = some s') :
+    Inv c s' ∧ s'.flat = s.flat ∧ s'.used + n ≤ c.limit := by
+  unfold room at hr
+  split at hr
+  · rename_i hfit
+    injection hr with hr; subst hr
+    exact ⟨h, rfl, hfit⟩
+  · split at hr
+    · rename_i hfit
+      injection hr with hr; subst hr
+      obtain ⟨h1, h2, _⟩ := next_ok hw h
+      exact ⟨h1, h2, hfit⟩
+    · cases hr
+
+/-- no room even in an empty message -/
+theorem room_none {c : Cfg} {s : St} {n : Nat} (hw : c.WF) (h : Inv c s) (hr : room c s n = none) :
+    c.limit < c.hdr + c.arrOpen + n := by
+  unfold room at hr
+  split at hr
+  · cases hr
+  · split at hr
+    · cases hr
+    · rename_i hno
+      have := (next_ok hw h).2.2
+      omega
+
+theorem room_fits {c : Cfg} {s : St} {n : Nat} (hw : c.WF) (h : Inv c s)
+    (hf : c.hdr + c.arrOpen + n ≤ c.limit) : ∃ s', room c s n = some s' := by
+  cases hr : room c s n with
+  | some s' => exact ⟨s', rfl⟩
+  | none => have := room_none hw h hr; omega
+
+theorem fallback_ok {c : Cfg} {s s' : St} {st : Piece} (hw : c.WF) (h : Inv c s)
+    (hf : fallback c s st = .ok s') : Inv c s' ∧ s'.flat = s.flat ++ [st] := by
+  unfold fallback at hf
+  split at hf
+  · rename_i hfit
+    injection hf with hf; subst hf
+    obtain ⟨h1, h2, _⟩ := next_ok hw h
+    obtain ⟨h3, h4⟩ := write_ok st h1 hfit
+    exact ⟨h3, by rw [h4, h2]⟩
+  · cases hf
+
+theorem fallback_fits {c : Cfg} {s : St} {st : Piece} (hw : c.WF) (h : Inv c s)
+    (hf : c.hdr + c.arrOpen + st.size ≤ c.limit) : ∃ s', fallback c s st = .ok s' := by
+  unfold fallback
+  have := (next_ok hw h).2.2
+  rw [if_pos (by omega)]
+  exact ⟨_, rfl⟩
+
+theorem fallback_err {c : Cfg} {s : St} {st : Piece} {e : Err} (hf : fallback c s st = .error e) :
+    e = .noSpace := by
+  unfold fallback at hf
+  split at hf
+  · cases hf
+  · injection hf with hf; exact hf.symm
+
+/-- `put` appends exactly one report — the item's or, if that fits no message, the error status —
+and keeps the invariant -/
+theorem put_ok {c : Cfg} {s s' : St} {p st : Piece} {b : Bool} (hw : c.WF) (h : Inv c s)
+    (hp : put c s p st = .ok (s', b)) :
+    Inv c s' ∧ s'.flat = s.flat ++ [if b then st else p] ∧
+      (b = true → c.limit < c.hdr + c.arrOpen + p.size) := by
+  unfold put at hp
+  cases hr : room c s p.size with
+  | some s1 =>
+    rw [hr] at hp
+    simp only [Except.ok.injEq, Prod.mk.injEq] at hp
+    obtain ⟨rfl, rfl⟩ := hp
+    obtain ⟨h1, h2, h3⟩ := room_some hw h hr
+    obtain ⟨h4, h5⟩ := write_ok p h1 h3
+    exact ⟨h4, by simp [h5, h2], by simp⟩
+  | none =>
+    rw [hr] at hp
+    simp only at hp
+    cases hf : fallback c s st with
+    | error e => rw [hf] at hp; cases hp
+    | ok s2 =>
+      rw [hf] at hp
+      simp only [Except.ok.injEq, Prod.mk.injEq] at hp
+      obtain ⟨rfl, rfl⟩ := hp
+      obtain ⟨h1, h2⟩ := fallback_ok hw h hf
+      exact ⟨h1, by simp [h2], fun _ => room_none hw h hr⟩
+
+/-- a report that fits an empty chunk is always placed, as itself -/
+theorem put_fits {c : Cfg} {s : St} (p st : Piece) (hw : c.WF) (h : Inv c s)
+    (hf : c.hdr + c.arrOpen + p.size ≤ c.limit) : ∃ s', put c s p st = .ok (s', false) := by
+  obtain ⟨s1, h1⟩ := room_fits hw h hf
+  unfold put
+  rw [h1]
+  exact ⟨_, rfl⟩
+
+/-- `put` ends: with the report, with the error status, or — the error status fits no message —
+with `NoSpace`; never with an endless loop -/
+theorem put_total {c : Cfg} {s : St} (p st : Piece) (hw : c.WF) (h : Inv c s)
+    (hst : c.hdr + c.arrOpen + st.size ≤ c.limit) : ∃ s' b, put c s p st = .ok (s', b) := by
+  unfold put
+  cases hr : room c s p.size with
+  | some s1 => exact ⟨_, _, rfl⟩
+  | none =>
+    obtain ⟨s2, h2⟩ := fallback_fits (st := st) hw h hst
+    simp only [h2]
+    exact ⟨_, _, rfl⟩
+
+theorem put_err {c : Cfg} {s : St} {p st : Piece} {e : Err} (hp : put c s p st = .error e) :
+    e = .noSpace := by
+  unfold put at hp
+  split at hp
+  · cases hp
+  · split at hp
+    · cases hp
+    · rename_i e' hf
+      injection hp with hp
+      subst hp
+      exact fallback_err hf
+
+theorem elemPieces_nil (id k : Nat) : elemPieces id k [] = [] := by simp [elemPieces]
+
+theorem elemPieces_cons (id k e : Nat) (es : List Nat) :
+    elemPieces id k (e :: es) = .listElem id k e :: elemPieces id (k + 1) es := by
+  simp [elemPieces, List.zipIdx_cons]
+
+/-- the streamed elements: a prefix of the list (all of it unless an element fits no message and an
+error status cuts the list) -/
+theorem putElems_ok {c : Cfg} (hw : c.WF) (id st : Nat) : ∀ (es : List Nat) (k : Nat) (s s' : St) (b : Bool),
+    Inv c s → putElems c id st k es s = .ok (s', b) →
+    Inv c s' ∧ ∃ n, n ≤ es.length ∧
+      s'.flat = s.flat ++ elemPieces id k (es.take n) ++ (if b then [.status id st] else []) ∧
+      (b = false → n = es.length) ∧
+      (b = true → ∃ e ∈ es, c.limit < c.hdr + c.arrOpen + e) := by
+  intro es
+  induction es with
+  | nil =>
+    intro k s s' b h hp
+    simp only [putElems, Except.ok.injEq, Prod.mk.injEq] at hp
+    obtain ⟨rfl, rfl⟩ := hp
+    exact ⟨h, 0, by simp, by simp [elemPieces_nil], by simp, by simp⟩
+  | cons e es ih =>
+    intro k s s' b h hp
+    simp only [putElems] at hp
+    cases hput : put c s (.listElem id k e) (.status id st) with
+    | error err => rw [hput] at hp; cases hp
+    | ok r =>
+      obtain ⟨s1, b1⟩ := r
+      rw [hput] at hp
+      obtain ⟨h1, f1, j1⟩ := put_ok hw h hput
+      cases b1 with
+      | true =>
+        simp only [Except.ok.injEq, Prod.mk.injEq] at hp
+        obtain ⟨rfl, rfl⟩ := hp
+        refine ⟨h1, 0, by simp, ?_, by simp, ?_⟩
+        · simpa [elemPieces_nil] using f1
+        · intro _
+          exact ⟨e, by simp, by simpa [Piece.size] using j1 rfl⟩
+      | false =>
+        simp only at hp
+        obtain ⟨h2, n, hn, f2, c2, j2⟩ := ih (k + 1) s1 s' b h1 hp
+        refine ⟨h2, n + 1, by simp; omega, ?_, ?_, ?_⟩
+        · rw [f2, f1]
+          simp [List.take_succ_cons, elemPieces_cons]
+        · intro hb; simp [c2 hb]
+        · intro hb
+          obtain ⟨e', he', hlt⟩ := j2 hb
+          exact ⟨e', by simp [he'], hlt⟩
+
+theorem putElems_fits {c : Cfg} (hw : c.WF) (id st : Nat) : ∀ (es : List Nat) (k : Nat) (s : St), Inv c s →
+    (∀ e ∈ es, c.hdr + c.arrOpen + e ≤ c.limit) → ∃ s', putElems c id st k es s = .ok (s', false) := by
+  intro es
+  induction es with
+  | nil => intro k s _ _; exact ⟨s, rfl⟩
+  | cons e es ih =>
+    intro k s h hf
+    simp only [putElems]
+    obtain ⟨s1, h1⟩ := put_fits (.listElem id k e) (.status id st) hw h
+      (by simpa [Piece.size] using hf e (by simp))
+    rw [h1]
+    exact ih (k + 1) s1 (put_ok hw h h1).1 (fun e' he' => hf e' (by simp [he']))
+
+theorem putElems_total {c : Cfg} (hw : c.WF) (id st : Nat) (hst : c.hdr + c.arrOpen + st ≤ c.limit) :
+    ∀ (es : List Nat) (k : Nat) (s : St), Inv c s → ∃ s' b, putElems c id st k es s = .ok (s', b) := by
+  intro es
+  induction es with
+  | nil => intro k s _; exact ⟨s, false, rfl⟩
+  | cons e es ih =>
+    intro k s h
+    simp only [putElems]
+    obtain ⟨s1, b1, h1⟩ := put_total (.listElem id k e) (.status id st) hw h (by simpa [Piece.size] using hst)
+    rw [h1]
+    cases b1 with
+    | true => exact ⟨_, _, rfl⟩
+    | false => exact ih (k + 1) s1 (put_ok hw h h1).1
+
+theorem putElems_err {c : Cfg} (id st : Nat) : ∀ (es : List Nat) (k : Nat) (s : St) (e : Err),
+    putElems c id st k es s = .error e → e = .noSpace := by
+  intro es
+  induction es with
+  | nil => intro k s e hp; simp [putElems] at hp
+  | cons x es ih =>
+    intro k s e hp
+    simp only [putElems] at hp
+    cases hput : put c s (.listElem id k x) (.status id st) with
+    | error err => rw [hput] at hp; injection hp with hp; subst hp; exact put_err hput
+    | ok r =>
+      obtain ⟨s1, b1⟩ := r
+      rw [hput] at hp
+      cases b1 with
+      | true => cases hp
+      | false => exact ih (k + 1) s1 e hp
+
+/-- the end-of-list probe adds no report (it may close the chunk), unless its header fits no
+message: then an error status follows the complete list -/
+theorem endProbe_ok {c : Cfg} (hw : c.WF) {s s' : St} (id probe st : Nat) (h : Inv c s)
+    (hp : endProbe c s id probe st = .ok s') :
+    Inv c s' ∧ (s'.flat = s.flat ∨
+      (s'.flat = s.flat ++ [.status id st] ∧ c.limit < c.hdr + c.arrOpen + probe)) := by
+  unfold endProbe at hp
+  cases hr : room c s probe with
+  | some s1 =>
+    rw [hr] at hp
+    injection hp with hp; subst hp
+    obtain ⟨h1, h2, _⟩ := room_some hw h hr
+    exact ⟨h1, .inl h2⟩
+  | none =>
+    rw [hr] at hp
+    obtain ⟨h1, h2⟩ := fallback_ok hw h hp
+    exact ⟨h1, .inr ⟨h2, room_none hw h hr⟩⟩
+
+/-- a failed / cut item is justified: one of its reports fits no message -/
+def Justified (c : Cfg) (it : Item) (o : Out) : Prop := o.complete = false → it.fits c = false
+
+theorem pieces_cut_all (id whole empty : Nat) (elems : List Nat) (probe st stE : Nat) (n : Nat) :
+    (Item.list id whole empty elems probe st stE).pieces (.cut n) =
+      .listStart id empty :: (elemPieces id 0 (elems.take n) ++ [.status id stE]) := rfl
+
+/-- one item contributes exactly its reports — whole, streamed, or with an error status standing
+for what fits no message — once, in order -/
 theorem putItem_ok {c : Cfg} (hw : c.WF) {s s' : St} {it : Item} (h : Inv c s)
-    (hp : putItem c s it = .ok s') : Inv c s' ∧ ∃ split, s'.flat = s.flat ++ it.pieces split := by
+    (hp : putItem c s it = .ok s') :
+    Inv c s' ∧ ∃ o, s'.flat = s.flat ++ it.pieces o ∧ Justified c it o := by
   cases it with
-  | scalar id sz =>
+  | scalar id sz st =>
     simp only [putItem] at hp
-    obtain ⟨h1, _, f1⟩ := put_ok hw h hp
-    exact ⟨h1, false, by simpa [Item.pieces] using f1⟩
-  | list id whole empty elems probe =>
+    cases hput : put c s (.scalar id sz) (.status id st) with
+    | error e => rw [hput] at hp; cases hp
+    | ok r =>
+      obtain ⟨s1, b⟩ := r
+      rw [hput] at hp
+      injection hp with hp; subst hp
+      obtain ⟨h1, f1, j1⟩ := put_ok hw h hput
+      cases b with
+      | false => exact ⟨h1, .whole, by simpa [Item.pieces] using f1, by simp [Justified, Out.complete]⟩
+      | true =>
+        refine ⟨h1, .failed, by simpa [Item.pieces] using f1, ?_⟩
+        intro _
+        have := j1 rfl
+        simp only [Piece.size] at this
+        simp only [Item.fits, decide_eq_false_iff_not]; omega
+  | list id whole empty elems probe st stE =>
     simp only [putItem] at hp
     split at hp
     · rename_i hfit
       injection hp with hp; subst hp
-      refine ⟨⟨?_, hfit, h.doneOk, h.doneNonempty⟩, false, ?_⟩
-      · simp only [sumSizes_cons, Piece.size]; have := h.usedEq; omega
-      · simp [St.flat, Item.pieces]
-    · cases hput : put c s (.listStart id empty) with
-      | error err => rw [hput] at hp; simp at hp
-      | ok s1 =>
+      obtain ⟨h1, f1⟩ := write_ok (.wholeList id whole elems) h (by simpa [Piece.size] using hfit)
+      exact ⟨h1, .whole, by simpa [Item.pieces] using f1, by simp [Justified, Out.complete]⟩
+    · cases hput : put c s (.listStart id empty) (.status id st) with
+      | error err => rw [hput] at hp; cases hp
+      | ok r =>
+        obtain ⟨s1, b1⟩ := r
         rw [hput] at hp
-        simp only at hp
-        cases hel : putElems c id 0 elems s1 with
-        | error err => rw [hel] at hp; simp at hp
-        | ok s2 =>
-          rw [hel] at hp
+        obtain ⟨h1, f1, j1⟩ := put_ok hw h hput
+        cases b1 with
+        | true =>
           simp only at hp
           injection hp with hp; subst hp
-          obtain ⟨h1, c1, f1⟩ := put_ok hw h hput
-          obtain ⟨h2, c2, f2⟩ := putElems_ok hw id elems 0 s1 s2 h1 c1 hel
-          obtain ⟨h3, f3⟩ := endProbe_ok hw probe h2 c2
-          refine ⟨h3, true, ?_⟩
-          rw [f3, f2, f1, pieces_split_eq]; simp
+          refine ⟨h1, .failed, by simpa [Item.pieces] using f1, ?_⟩
+          intro _
+          have := j1 rfl
+          simp only [Piece.size] at this
+          simp only [Item.fits, Bool.and_eq_false_iff, decide_eq_false_iff_not]
+          left; left; omega
+        | false =>
+          simp only at hp
+          cases hel : putElems c id stE 0 elems s1 with
+          | error err => rw [hel] at hp; cases hp
+          | ok r2 =>
+            obtain ⟨s2, b2⟩ := r2
+            rw [hel] at hp
+            obtain ⟨h2, n, hn, f2, c2, j2⟩ := putElems_ok hw id stE elems 0 s1 s2 b2 h1 hel
+            cases b2 with
+            | true =>
+              simp only at hp
+              injection hp with hp; subst hp
+              refine ⟨h2, .cut n, ?_, ?_⟩
+              · rw [f2, f1, pieces_cut_all]; simp
+              · intro _
+                obtain ⟨e, he, hlt⟩ := j2 rfl
+                simp only [Item.fits, Bool.and_eq_false_iff, decide_eq_false_iff_not]
+                right
+                rw [List.all_eq_false]
+                exact ⟨e, he, by simp; omega⟩
+            | false =>
+              simp only at hp
+              obtain ⟨h3, f3⟩ := endProbe_ok hw id probe stE h2 hp
+              have hn' := c2 rfl
+              rcases f3 with f3 | ⟨f3, j3⟩
+              · refine ⟨h3, .split, ?_, by simp [Justified, Out.complete]⟩
+                rw [f3, f2, f1, hn']
+                simp [Item.pieces]
+              · refine ⟨h3, .cut n, ?_, ?_⟩
+                · rw [f3, f2, f1, pieces_cut_all]; simp
+                · intro _
+                  simp only [Item.fits, Bool.and_eq_false_iff, decide_eq_false_iff_not]
+                  left; right; omega
 
-theorem putItem_fits {c : Cfg} (s : St) (it : Item) (hf : it.fits c = true) :
+/-- the largest error status that may stand for (a part of) the item -/
+def Item.st : Item → Nat
+  | .scalar _ _ st => st
+  | .list _ _ _ _ _ st stE => max st stE
+
+theorem putItem_fits {c : Cfg} (hw : c.WF) {s : St} (h : Inv c s) (it : Item) (hf : it.fits c = true) :
     ∃ s', putItem c s it = .ok s' := by
   cases it with
-  | scalar id sz =>
+  | scalar id sz st =>
     simp only [Item.fits, decide_eq_true_eq] at hf
-    exact put_fits s (.scalar id sz) (by simpa [Piece.size] using hf)
-  | list id whole empty elems probe =>
+    obtain ⟨s1, h1⟩ := put_fits (.scalar id sz) (.status id st) hw h (by simpa [Piece.size] using hf)
+    simp only [putItem, h1]
+    exact ⟨_, rfl⟩
+  | list id whole empty elems probe st stE =>
     simp only [Item.fits, Bool.and_eq_true, decide_eq_true_eq, List.all_eq_true] at hf
     simp only [putItem]
     split
     · exact ⟨_, rfl⟩
-    · obtain ⟨s1, h1⟩ := put_fits s (.listStart id empty) (by simpa [Piece.size] using hf.1)
+    · obtain ⟨s1, h1⟩ := put_fits (.listStart id empty) (.status id st) hw h (by simpa [Piece.size] using hf.1.1)
       rw [h1]
-      obtain ⟨s2, h2⟩ := putElems_fits id elems 0 s1 hf.2
-      simp only [h2]
+      simp only
+      have i1 := (put_ok hw h h1).1
+      obtain ⟨s2, h2⟩ := putElems_fits hw id stE elems 0 s1 i1 hf.2
+      rw [h2]
+      simp only
+      have i2 := (putElems_ok hw id stE elems 0 s1 s2 false i1 h2).1
+      obtain ⟨s3, h3⟩ := room_fits (n := probe) hw i2 hf.1.2
+      simp only [endProbe, h3]
       exact ⟨_, rfl⟩
 
-/-- the reports of a request for given whole/streamed choices of its list items -/
-def allPieces : List Item → List Bool → List Piece
+/-- an item whose error status fits an empty message is always answered -/
+theorem putItem_total {c : Cfg} (hw : c.WF) {s : St} (h : Inv c s) (it : Item)
+    (hst : c.hdr + c.arrOpen + it.st ≤ c.limit) : ∃ s', putItem c s it = .ok s' := by
+  cases it with
+  | scalar id sz st =>
+    obtain ⟨s1, b, h1⟩ := put_total (.scalar id sz) (.status id st) hw h (by simpa [Piece.size, Item.st] using hst)
+    simp only [putItem, h1]
+    exact ⟨_, rfl⟩
+  | list id whole empty elems probe st stE =>
+    simp only [Item.st] at hst
+    have hst1 : c.hdr + c.arrOpen + st ≤ c.limit := by have := Nat.le_max_left st stE; omega
+    have hst2 : c.hdr + c.arrOpen + stE ≤ c.limit := by have := Nat.le_max_right st stE; omega
+    simp only [putItem]
+    split
+    · exact ⟨_, rfl⟩
+    · obtain ⟨s1, b1, h1⟩ := put_total (.listStart id empty) (.status id st) hw h (by simpa [Piece.size] using hst1)
+      rw [h1]
+      cases b1 with
+      | true => exact ⟨_, rfl⟩
+      | false =>
+        simp only
+        have i1 := (put_ok hw h h1).1
+        obtain ⟨s2, b2, h2⟩ := putElems_total hw id stE hst2 elems 0 s1 i1
+        rw [h2]
+        cases b2 with
+        | true => exact ⟨_, rfl⟩
+        | false =>
+          simp only
+          have i2 := (putElems_ok hw id stE elems 0 s1 s2 false i1 h2).1
+          unfold endProbe
+          cases hr : room c s2 probe with
+          | some s3 => exact ⟨_, rfl⟩
+          | none => exact fallback_fits hw i2 (by simpa [Piece.size] using hst2)
+
+theorem putItem_err {c : Cfg} {s : St} {it : Item} {e : Err} (hp : putItem c s it = .error e) :
+    e = .noSpace := by
+  cases it with
+  | scalar id sz st =>
+    simp only [putItem] at hp
+    cases hput : put c s (.scalar id sz) (.status id st) with
+    | error err => rw [hput] at hp; injection hp with hp; subst hp; exact put_err hput
+    | ok r => rw [hput] at hp; cases hp
+  | list id whole empty elems probe st stE =>
+    simp only [putItem] at hp
+    split at hp
+    · cases hp
+    · cases hput : put c s (.listStart id empty) (.status id st) with
+      | error err => rw [hput] at hp; injection hp with hp; subst hp; exact put_err hput
+      | ok r =>
+        obtain ⟨s1, b1⟩ := r
+        rw [hput] at hp
+        cases b1 with
+        | true => cases hp
+        | false =>
+          simp only at hp
+          cases hel : putElems c id stE 0 elems s1 with
+          | error err => rw [hel] at hp; injection hp with hp; subst hp; exact putElems_err id stE elems 0 s1 _ hel
+          | ok r2 =>
+            obtain ⟨s2, b2⟩ := r2
+            rw [hel] at hp
+            cases b2 with
+            | true => cases hp
+            | false =>
+              simp only at hp
+              unfold endProbe at hp
+              cases hr : room c s2 probe with
+              | some s3 => rw [hr] at hp; cases hp
+              | none => rw [hr] at hp; exact fallback_err hp
+
+/-- one justified outcome per item -/
+inductive AllJustified (c : Cfg) : List Item → List Out → Prop
+  | nil : AllJustified c [] []
+  | cons {it : Item} {o : Out} {its : List Item} {os : List Out} :
+      Justified c it o → AllJustified c its os → AllJustified c (it :: its) (o :: os)
+
+theorem AllJustified.length_eq {c : Cfg} {its : List Item} {os : List Out} (h : AllJustified c its os) :
+    os.length = its.length := by
+  induction h with
+  | nil => rfl
+  | cons _ _ ih => simp [ih]
+
+/-- the reports of a request for given outcomes of its items -/
+def allPieces : List Item → List Out → List Piece
   | [], _ => []
-  | it :: its, [] => it.pieces false ++ allPieces its []
-  | it :: its, b :: bs => it.pieces b ++ allPieces its bs
+  | it :: its, [] => it.pieces .whole ++ allPieces its []
+  | it :: its, o :: os => it.pieces o ++ allPieces its os
 
 theorem putItems_ok {c : Cfg} (hw : c.WF) : ∀ (its : List Item) (s s' : St), Inv c s →
     putItems c its s = .ok s' →
-    Inv c s' ∧ ∃ splits, splits.length = its.length ∧ s'.flat = s.flat ++ allPieces its splits := by
+    Inv c s' ∧ ∃ outs, AllJustified c its outs ∧ s'.flat = s.flat ++ allPieces its outs := by
   intro its
   induction its with
-  | nil => intro s s' h hp; simp [putItems] at hp; subst hp; exact ⟨h, [], rfl, by simp [allPieces]⟩
+  | nil => intro s s' h hp; simp [putItems] at hp; subst hp; exact ⟨h, [], .nil, by simp [allPieces]⟩
   | cons it its ih =>
     intro s s' h hp
     simp only [putItems] at hp
@@ -231,20 +518,923 @@ theorem putItems_ok {c : Cfg} (hw : c.WF) : ∀ (its : List Item) (s s' : St), I
     | ok s1 =>
       rw [hput] at hp
       simp only at hp
-      obtain ⟨h1, b, f1⟩ := putItem_ok hw h hput
-      obtain ⟨h2, bs, hl, f2⟩ := ih s1 s' h1 hp
-      exact ⟨h2, b :: bs, by simp [hl], by rw [f2, f1]; simp [allPieces]⟩
+      obtain ⟨h1, o, f1, j1⟩ := putItem_ok hw h hput
+      obtain ⟨h2, os, hl, f2⟩ := ih s1 s' h1 hp
+      exact ⟨h2, o :: os, .cons j1 hl, by rw [f2, f1]; simp [allPieces]⟩
 
-theorem putItems_fits {c : Cfg} : ∀ (its : List Item) (s : St), Fits c its →
+theorem putItems_fits {c : Cfg} (hw : c.WF) : ∀ (its : List Item) (s : St), Inv c s → Fits c its →
     ∃ s', putItems c its s = .ok s' := by
   intro its
   induction its with
-  | nil => intro s _; exact ⟨s, rfl⟩
+  | nil => intro s _ _; exact ⟨s, rfl⟩
   | cons it its ih =>
-    intro s hf
+    intro s h hf
     simp only [putItems]
-    obtain ⟨s1, h1⟩ := putItem_fits s it (hf it (by simp))
+    obtain ⟨s1, h1⟩ := putItem_fits hw h it (hf it (by simp))
     rw [h1]
-    exact ih s1 (fun it' h' => hf it' (by simp [h']))
+    exact ih s1 (putItem_ok hw h h1).1 (fun it' h' => hf it' (by simp [h']))
+
+/-- **the attribute section always ends** when the error statuses fit an empty message -/
+theorem putItems_total {c : Cfg} (hw : c.WF) : ∀ (its : List Item) (s : St), Inv c s →
+    (∀ it ∈ its, c.hdr + c.arrOpen + it.st ≤ c.limit) → ∃ s', putItems c its s = .ok s' := by
+  intro its
+  induction its with
+  | nil => intro s _ _; exact ⟨s, rfl⟩
+  | cons it its ih =>
+    intro s h hf
+    simp only [putItems]
+    obtain ⟨s1, h1⟩ := putItem_total hw h it (hf it (by simp))
+    rw [h1]
+    exact ih s1 (putItem_ok hw h h1).1 (fun it' h' => hf it' (by simp [h']))
+
+theorem putItems_err {c : Cfg} : ∀ (its : List Item) (s : St) (e : Err),
+    putItems c its s = .error e → e = .noSpace := by
+  intro its
+  induction its with
+  | nil => intro s e hp; simp [putItems] at hp
+  | cons it its ih =>
+    intro s e hp
+    simp only [putItems] at hp
+    cases hput : putItem c s it with
+    | error err => rw [hput] at hp; injection hp with hp; subst hp; exact putItem_err hput
+    | ok s1 => rw [hput] at hp; exact ih s1 e hp
+
+/-- an attribute held back by its data version filter writes nothing: the attribute section is the
+chunking of the selected items -/
+theorem putAttrs_eq (c : Cfg) : ∀ (as : List AttrReq) (s : St),
+    putAttrs c as s = putItems c ((as.filter fun a => !a.unchanged).map (·.item)) s := by
+  intro as
+  induction as with
+  | nil => intro s; rfl
+  | cons a as ih =>
+    intro s
+    simp only [putAttrs, putAttr]
+    cases hu : a.unchanged with
+    | true => simp [hu, ih]
+    | false =>
+      simp only [hu, Bool.false_eq_true, ↓reduceIte, List.filter_cons, Bool.not_false, List.map_cons, putItems]
+      cases putItem c s a.item with
+      | error e => rfl
+      | ok s1 => exact ih s1
+
+/-! ## event section -/
+
+/-- all event reports written so far, in order -/
+def ESt.flatEv (s : ESt) : List EvPiece := (s.done.reverse.flatMap (·.events)) ++ s.evs.reverse
+
+/-- all attribute reports written so far, in order -/
+def ESt.flatAt (s : ESt) : List Piece := (s.done.reverse.flatMap (·.pieces)) ++ s.attrs.reverse
+
+/-- invariant of the responder state between two event reports -/
+structure EInv (c : Cfg) (s : ESt) : Prop where
+  usedLe : s.used ≤ s.lim
+  /-- the final `end_container` and the trailer still fit -/
+  limLe : s.lim + c.close + c.reserve ≤ c.cap
+  doneOk : ∀ ch ∈ s.done, ch.more = true ∧ ch.size ≤ c.cap
+  /-- a message in which nothing precedes the event array is an empty event message -/
+  freshOk : s.fresh = true → s.base ≤ c.hdr + c.evOpen ∧ c.limit ≤ s.lim
+
+theorem flushEv_ok {c : Cfg} {s : ESt} (hw : c.WF) (h : EInv c s) :
+    EInv c (s.flushEv c) ∧ (s.flushEv c).flatEv = s.flatEv ∧ (s.flushEv c).flatAt = s.flatAt ∧
+      (s.flushEv c).cursor = s.cursor ∧ (s.flushEv c).empty = s.empty := by
+  have hlim := limit_le c hw
+  refine ⟨⟨?_, ?_, ?_, ?_⟩, ?_, ?_, rfl, rfl⟩
+  · simpa [ESt.flushEv] using hw.startEv
+  · have := hw.struct; simp only [ESt.flushEv]; omega
+  · intro ch hch
+    simp only [ESt.flushEv, List.mem_cons] at hch
+    rcases hch with rfl | hch
+    · refine ⟨rfl, ?_⟩
+      have := h.usedLe; have := h.limLe; have := hw.trailerMore; simp only; omega
+    · exact h.doneOk ch hch
+  · intro _; exact ⟨Nat.le_refl _, Nat.le_refl _⟩
+  · simp [ESt.flatEv, ESt.flushEv]
+  · simp [ESt.flatAt, ESt.flushEv]
+
+theorem writeEv_ok {c : Cfg} {s : ESt} (p : EvPiece) (h : EInv c s) (hfit : s.used + p.size ≤ s.lim) :
+    EInv c (s.writeEv p) ∧ (s.writeEv p).flatEv = s.flatEv ++ [p] ∧ (s.writeEv p).flatAt = s.flatAt := by
+  refine ⟨⟨hfit, h.limLe, h.doneOk, h.freshOk⟩, ?_, rfl⟩
+  simp [ESt.flatEv, ESt.writeEv]
+
+theorem putEvStatus_ok {c : Cfg} {s s' : ESt} {k sz : Nat} (hw : c.WF) (h : EInv c s)
+    (hp : putEvStatus c s k sz = .ok s') :
+    EInv c s' ∧ s'.flatEv = s.flatEv ++ [.status k sz] ∧ s'.flatAt = s.flatAt ∧ s'.cursor = s.cursor := by
+  unfold putEvStatus at hp
+  split at hp
+  · rename_i hfit
+    injection hp with hp; subst hp
+    obtain ⟨h1, h2, h3⟩ := writeEv_ok (.status k sz) h (by simpa [EvPiece.size] using hfit)
+    exact ⟨h1, h2, h3, rfl⟩
+  · split at hp
+    · rename_i hfit
+      injection hp with hp; subst hp
+      obtain ⟨g1, g2, g3, g4, _⟩ := flushEv_ok hw h
+      obtain ⟨h1, h2, h3⟩ := writeEv_ok (.status k sz) g1 (by simpa [EvPiece.size] using hfit)
+      exact ⟨h1, by rw [h2, g2], by rw [h3, g3], g4⟩
+    · cases hp
+
+theorem putEvStatuses_ok {c : Cfg} (hw : c.WF) : ∀ (szs : List Nat) (k : Nat) (s s' : ESt), EInv c s →
+    putEvStatuses c k szs s = .ok s' →
+    EInv c s' ∧ s'.flatEv = s.flatEv ++ (szs.zipIdx k).map (fun (sz, i) => EvPiece.status i sz) ∧
+      s'.flatAt = s.flatAt ∧ s'.cursor = s.cursor := by
+  intro szs
+  induction szs with
+  | nil => intro k s s' h hp; simp [putEvStatuses] at hp; subst hp; exact ⟨h, by simp, rfl, rfl⟩
+  | cons sz szs ih =>
+    intro k s s' h hp
+    simp only [putEvStatuses] at hp
+    cases h1 : putEvStatus c s k sz with
+    | error e => rw [h1] at hp; cases hp
+    | ok s1 =>
+      rw [h1] at hp
+      obtain ⟨i1, f1, a1, c1⟩ := putEvStatus_ok hw h h1
+      obtain ⟨i2, f2, a2, c2⟩ := ih (k + 1) s1 s' i1 hp
+      exact ⟨i2, by rw [f2, f1]; simp [List.zipIdx_cons], by rw [a2, a1], by rw [c2, c1]⟩
+
+/-- a status report that fits an empty event message is always placed -/
+theorem putEvStatus_fits {c : Cfg} {s : ESt} {k sz : Nat} (hf : c.hdr + c.evOpen + sz ≤ c.limit) :
+    ∃ s', putEvStatus c s k sz = .ok s' := by
+  unfold putEvStatus
+  split
+  · exact ⟨_, rfl⟩
+  · rw [if_pos (by simpa [ESt.flushEv] using hf)]
+    exact ⟨_, rfl⟩
+
+theorem putEvStatuses_fits {c : Cfg} : ∀ (szs : List Nat) (k : Nat) (s : ESt),
+    (∀ sz ∈ szs, c.hdr + c.evOpen + sz ≤ c.limit) → ∃ s', putEvStatuses c k szs s = .ok s' := by
+  intro szs
+  induction szs with
+  | nil => intro k s _; exact ⟨s, rfl⟩
+  | cons sz szs ih =>
+    intro k s hf
+    simp only [putEvStatuses]
+    obtain ⟨s1, h1⟩ := putEvStatus_fits (s := s) (k := k) (hf sz (by simp))
+    rw [h1]
+    exact ih (k + 1) s1 (fun x hx => hf x (by simp [hx]))
+
+/-- the state after event `e` was written -/
+def ESt.wr (s : ESt) (e : Ev) : ESt := { s.writeEv (.data e.num e.size) with cursor := e.num }
+
+/-- the fetch loop as a single sweep over the buffer: an event that finds no space is retried in
+the next message, where it is the first event -/
+def sweep (c : Cfg) (r : EvReq) : List Ev → ESt → Except Err ESt
+  | [], s => .ok s
+  | e :: es, s =>
+    if r.inRange s.cursor e then
+      if r.passes e then
+        if s.used + e.size ≤ s.lim then sweep c r es (s.wr e)
+        else if s.fresh && s.used == s.base then .error .tooBig
+        else if (s.flushEv c).used + e.size ≤ (s.flushEv c).lim then sweep c r es ((s.flushEv c).wr e)
+        else .error .tooBig
+      else sweep c r es { s with cursor := e.num }
+    else sweep c r es s
+
+/-- the events before the cursor are skipped by a fetch -/
+theorem pass_skip (r : EvReq) : ∀ (pre rest : List Ev) (s : ESt),
+    (∀ e ∈ pre, r.inRange s.cursor e = false) → pass r (pre ++ rest) s = pass r rest s := by
+  intro pre
+  induction pre with
+  | nil => intro rest s _; rfl
+  | cons e pre ih =>
+    intro rest s h
+    simp only [List.cons_append, pass]
+    rw [if_neg (by simp [h e (by simp)])]
+    exact ih rest s (fun x hx => h x (by simp [hx]))
+
+theorem inRange_mono (r : EvReq) {a b : Nat} (e : Ev) (hab : a ≤ b) (h : r.inRange a e = false) :
+    r.inRange b e = false := by
+  simp only [EvReq.inRange, Bool.and_eq_false_iff, decide_eq_false_iff_not] at h ⊢
+  rcases h with h | h
+  · left; omega
+  · right; exact h
+
+theorem inRange_self (r : EvReq) (e : Ev) : r.inRange e.num e = false := by
+  simp [EvReq.inRange]
+
+theorem inRange_lt (r : EvReq) {a : Nat} {e : Ev} (h : r.inRange a e = true) : a < e.num := by
+  simp only [EvReq.inRange, Bool.and_eq_true, decide_eq_true_eq] at h
+  exact h.1
+
+theorem evLoop_congr (c : Cfg) (r : EvReq) (fuel : Nat) {s s' : ESt}
+    (h : pass r r.buf s = pass r r.buf s') : evLoop c r (fuel + 1) s = evLoop c r (fuel + 1) s' := by
+  simp only [evLoop, h]
+
+/-- **the cursor resumes correctly**: iterating the buffer again from its start after every sent
+chunk is the same as one sweep over it — nothing is reported twice, nothing is left out, and the
+loop ends within `buf.length + 1` fetches (never with an endless sequence of chunks) -/
+theorem evLoop_eq_sweep (c : Cfg) (r : EvReq) : ∀ (rest pre : List Ev) (s : ESt) (fuel : Nat),
+    rest.length ≤ fuel → (∀ e ∈ pre, r.inRange s.cursor e = false) → r.buf = pre ++ rest →
+    evLoop c r (fuel + 1) s = sweep c r rest s := by
+  intro rest
+  induction rest with
+  | nil =>
+    intro pre s fuel _ hpre hbuf
+    have hp : pass r r.buf s = (s, true) := by
+      rw [hbuf, pass_skip r pre [] s hpre]; rfl
+    simp only [evLoop, hp, sweep]
+  | cons e es ih =>
+    intro pre s fuel hfuel hpre hbuf
+    have hbuf' : r.buf = (pre ++ [e]) ++ es := by simp [hbuf]
+    simp only [List.length_cons] at hfuel
+    -- what a state reached by considering `e` skips
+    have hskip : ∀ s1 : ESt, s1.cursor = e.num → s.cursor ≤ e.num →
+        ∀ x ∈ pre ++ [e], r.inRange s1.cursor x = false := by
+      intro s1 hc hle x hx
+      simp only [List.mem_append, List.mem_singleton] at hx
+      rcases hx with hx | rfl
+      · rw [hc]; exact inRange_mono r x hle (hpre x hx)
+      · rw [hc]; exact inRange_self r x
+    have hp : pass r r.buf s = pass r (e :: es) s := by rw [hbuf]; exact pass_skip r pre _ s hpre
+    -- continuing from a state in which `e` is behind the cursor
+    have hcont : ∀ s1 : ESt, s1.cursor = e.num → s.cursor ≤ e.num → ∀ f, es.length ≤ f →
+        pass r r.buf s1 = pass r es s1 ∧ evLoop c r (f + 1) s1 = sweep c r es s1 := by
+      intro s1 hc hle f hf
+      refine ⟨?_, ih (pre ++ [e]) s1 f hf (hskip s1 hc hle) hbuf'⟩
+      rw [hbuf']; exact pass_skip r _ es s1 (hskip s1 hc hle)
+    cases hr : r.inRange s.cursor e with
+    | false =>
+      simp only [sweep, hr, Bool.false_eq_true, ↓reduceIte]
+      refine ih (pre ++ [e]) s fuel (by omega) ?_ hbuf'
+      intro x hx
+      simp only [List.mem_append, List.mem_singleton] at hx
+      rcases hx with hx | rfl
+      · exact hpre x hx
+      · exact hr
+    | true =>
+      have hlt := Nat.le_of_lt (inRange_lt r hr)
+      cases hpa : r.passes e with
+      | false =>
+        simp only [sweep, hr, hpa, Bool.false_eq_true, ↓reduceIte]
+        obtain ⟨q1, q2⟩ := hcont { s with cursor := e.num } rfl hlt fuel (by omega)
+        rw [← q2]
+        apply evLoop_congr
+        rw [hp, q1]
+        simp only [pass, hr, hpa, Bool.false_eq_true, ↓reduceIte]
+      | true =>
+        by_cases hfit : s.used + e.size ≤ s.lim
+        · simp only [sweep, hr, hpa, hfit, ↓reduceIte]
+          obtain ⟨q1, q2⟩ := hcont (s.wr e) rfl hlt fuel (by omega)
+          rw [← q2]
+          apply evLoop_congr
+          rw [hp, q1]
+          simp only [pass, hr, hpa, hfit, ↓reduceIte, ESt.wr]
+        · have hp0 : pass r r.buf s = (s, false) := by
+            rw [hp]; simp only [pass, hr, hpa, hfit, ↓reduceIte]
+          simp only [sweep, hr, hpa, hfit, ↓reduceIte]
+          simp only [evLoop, hp0]
+          split
+          · rfl
+          · -- the chunk is sent; `e` is retried as the first event of the next message
+            obtain ⟨f, rfl⟩ : ∃ f, fuel = f + 1 := ⟨fuel - 1, by omega⟩
+            have hpre2 : ∀ x ∈ pre, r.inRange (s.flushEv c).cursor x = false := hpre
+            have hp2 : pass r r.buf (s.flushEv c) = pass r (e :: es) (s.flushEv c) := by
+              rw [hbuf]; exact pass_skip r pre _ _ hpre2
+            have hr2 : r.inRange (s.flushEv c).cursor e = true := hr
+            by_cases hfit2 : (s.flushEv c).used + e.size ≤ (s.flushEv c).lim
+            · simp only [hfit2, ↓reduceIte]
+              obtain ⟨q1, q2⟩ := hcont ((s.flushEv c).wr e) rfl hlt f (by omega)
+              rw [← q2]
+              apply evLoop_congr
+              rw [hp2, q1]
+              simp only [pass, hr2, hpa, hfit2, ↓reduceIte, ESt.wr]
+            · simp only [hfit2, ↓reduceIte]
+              have hp3 : pass r r.buf (s.flushEv c) = (s.flushEv c, false) := by
+                rw [hp2]; simp only [pass, hr2, hpa, hfit2, ↓reduceIte]
+              simp only [evLoop, hp3]
+              simp [ESt.flushEv]
+
+/-- the events a sweep starting with cursor `cur` reports -/
+def considered (r : EvReq) : Nat → List Ev → List Ev
+  | _, [] => []
+  | cur, e :: es =>
+    if r.inRange cur e then
+      if r.passes e then e :: considered r e.num es else considered r e.num es
+    else considered r cur es
+
+/-- in a buffer with ascending event numbers the cursor leaves nothing out: the events reported are
+exactly the events of the buffer in the range that pass the filters -/
+theorem considered_eq_filter (r : EvReq) : ∀ (es : List Ev) (cur : Nat),
+    (es.map (·.num)).Pairwise (· < ·) →
+    considered r cur es = es.filter fun e => r.inRange cur e && r.passes e := by
+  intro es
+  induction es with
+  | nil => intro cur _; rfl
+  | cons e es ih =>
+    intro cur hasc
+    simp only [List.map_cons, List.pairwise_cons] at hasc
+    obtain ⟨hlt, hasc'⟩ := hasc
+    simp only [considered, List.filter_cons]
+    cases hr : r.inRange cur e with
+    | false => simpa using ih cur hasc'
+    | true =>
+      have hcur := inRange_lt r hr
+      have hcong : (es.filter fun x => r.inRange e.num x && r.passes x) =
+          es.filter fun x => r.inRange cur x && r.passes x := by
+        apply List.filter_congr
+        intro x hx
+        have : e.num < x.num := hlt x.num (List.mem_map.mpr ⟨x, hx, rfl⟩)
+        simp only [EvReq.inRange]
+        congr 2
+        simp only [decide_eq_decide]
+        omega
+      cases hp : r.passes e with
+      | false => simp [ih e.num hasc', hcong]
+      | true => simp [ih e.num hasc', hcong]
+
+theorem wr_ok {c : Cfg} {s : ESt} (e : Ev) (h : EInv c s) (hfit : s.used + e.size ≤ s.lim) :
+    EInv c (s.wr e) ∧ (s.wr e).flatEv = s.flatEv ++ [.data e.num e.size] ∧ (s.wr e).flatAt = s.flatAt ∧
+      (s.wr e).cursor = e.num := by
+  obtain ⟨h1, h2, h3⟩ := writeEv_ok (.data e.num e.size) h (by simpa [EvPiece.size] using hfit)
+  exact ⟨⟨h1.usedLe, h1.limLe, h1.doneOk, h1.freshOk⟩, h2, h3, rfl⟩
+
+/-- the sweep reports exactly the considered events, each once, in buffer order -/
+theorem sweep_ok {c : Cfg} (hw : c.WF) (r : EvReq) : ∀ (es : List Ev) (s s' : ESt), EInv c s →
+    sweep c r es s = .ok s' →
+    EInv c s' ∧ s'.flatEv = s.flatEv ++ (considered r s.cursor es).map (fun e => EvPiece.data e.num e.size) ∧
+      s'.flatAt = s.flatAt := by
+  intro es
+  induction es with
+  | nil => intro s s' h hp; simp [sweep] at hp; subst hp; exact ⟨h, by simp [considered], rfl⟩
+  | cons e es ih =>
+    intro s s' h hp
+    simp only [sweep] at hp
+    simp only [considered]
+    cases hr : r.inRange s.cursor e with
+    | false =>
+      simp only [hr, Bool.false_eq_true, ↓reduceIte] at hp ⊢
+      exact ih s s' h hp
+    | true =>
+      cases hpa : r.passes e with
+      | false =>
+        simp only [hr, hpa, Bool.false_eq_true, ↓reduceIte] at hp ⊢
+        exact ih { s with cursor := e.num } s' ⟨h.usedLe, h.limLe, h.doneOk, h.freshOk⟩ hp
+      | true =>
+        simp only [hr, hpa, ↓reduceIte] at hp ⊢
+        split at hp
+        · rename_i hfit
+          obtain ⟨i1, f1, a1, c1⟩ := wr_ok e h hfit
+          obtain ⟨i2, f2, a2⟩ := ih (s.wr e) s' i1 hp
+          exact ⟨i2, by rw [f2, f1, c1]; simp, by rw [a2, a1]⟩
+        · split at hp
+          · cases hp
+          · split at hp
+            · rename_i hfit
+              obtain ⟨g1, g2, g3, g4, _⟩ := flushEv_ok hw h
+              obtain ⟨i1, f1, a1, c1⟩ := wr_ok e g1 hfit
+              obtain ⟨i2, f2, a2⟩ := ih ((s.flushEv c).wr e) s' i1 hp
+              exact ⟨i2, by rw [f2, f1, c1, g2]; simp, by rw [a2, a1, g3]⟩
+            · cases hp
+
+/-- the sweep ends with an answer when every event to be reported fits an empty event message -/
+theorem sweep_fits {c : Cfg} (hw : c.WF) (r : EvReq) : ∀ (es : List Ev) (s : ESt), EInv c s →
+    (∀ e ∈ es, r.passes e = true → c.hdr + c.evOpen + e.size ≤ c.limit) → ∃ s', sweep c r es s = .ok s' := by
+  intro es
+  induction es with
+  | nil => intro s _ _; exact ⟨s, rfl⟩
+  | cons e es ih =>
+    intro s h hf
+    have hf' : ∀ x ∈ es, r.passes x = true → c.hdr + c.evOpen + x.size ≤ c.limit :=
+      fun x hx => hf x (by simp [hx])
+    simp only [sweep]
+    split
+    · split
+      · rename_i hpa
+        have hfe := hf e (by simp) hpa
+        split
+        · rename_i hfit
+          exact ih _ (wr_ok e h hfit).1 hf'
+        · split
+          · rename_i hnofit hfresh
+            -- the open message is an empty event message: the event fits it
+            exfalso
+            simp only [Bool.and_eq_true, beq_iff_eq] at hfresh
+            obtain ⟨hb, hl⟩ := h.freshOk hfresh.1
+            omega
+          · have hfit2 : (s.flushEv c).used + e.size ≤ (s.flushEv c).lim := by simpa [ESt.flushEv] using hfe
+            rw [if_pos hfit2]
+            exact ih _ (wr_ok e (flushEv_ok hw h).1 hfit2).1 hf'
+      · exact ih _ ⟨h.usedLe, h.limLe, h.doneOk, h.freshOk⟩ hf'
+    · exact ih _ h hf'
+
+theorem sweep_err {c : Cfg} (r : EvReq) : ∀ (es : List Ev) (s : ESt) (e : Err),
+    sweep c r es s = .error e → e = .tooBig := by
+  intro es
+  induction es with
+  | nil => intro s e hp; simp [sweep] at hp
+  | cons x es ih =>
+    intro s e hp
+    simp only [sweep] at hp
+    repeat' split at hp
+    all_goals first
+      | exact ih _ e hp
+      | (injection hp with hp; exact hp.symm)
+
+/-! ## the sections of `respond` -/
+
+/-- as long as nothing was reported no message was sent and the open message holds no report -/
+def EmptyOk (s : ESt) : Prop := s.empty = true → s.done = [] ∧ s.attrs = [] ∧ s.evs = []
+
+theorem putEvStatus_empty {c : Cfg} {s s' : ESt} {k sz : Nat} (hp : putEvStatus c s k sz = .ok s') :
+    s'.empty = false := by
+  unfold putEvStatus at hp
+  split at hp
+  · injection hp with hp; subst hp; rfl
+  · split at hp
+    · injection hp with hp; subst hp; rfl
+    · cases hp
+
+theorem putEvStatuses_empty {c : Cfg} : ∀ (szs : List Nat) (k : Nat) (s s' : ESt), EmptyOk s →
+    putEvStatuses c k szs s = .ok s' → EmptyOk s' := by
+  intro szs
+  induction szs with
+  | nil => intro k s s' h hp; simp [putEvStatuses] at hp; subst hp; exact h
+  | cons sz szs ih =>
+    intro k s s' _ hp
+    simp only [putEvStatuses] at hp
+    cases h1 : putEvStatus c s k sz with
+    | error e => rw [h1] at hp; cases hp
+    | ok s1 =>
+      rw [h1] at hp
+      refine ih (k + 1) s1 s' ?_ hp
+      intro he
+      rw [putEvStatus_empty h1] at he
+      cases he
+
+theorem sweep_empty {c : Cfg} (r : EvReq) : ∀ (es : List Ev) (s s' : ESt), EmptyOk s →
+    sweep c r es s = .ok s' → EmptyOk s' := by
+  intro es
+  induction es with
+  | nil => intro s s' h hp; simp [sweep] at hp; subst hp; exact h
+  | cons e es ih =>
+    intro s s' h hp
+    simp only [sweep] at hp
+    have hwr : ∀ t : ESt, EmptyOk (t.wr e) := by
+      intro t he
+      simp [ESt.wr, ESt.writeEv] at he
+    repeat' split at hp
+    all_goals first
+      | exact ih _ s' (hwr _) hp
+      | exact ih _ s' h hp
+      | exact ih { s with cursor := e.num } s' h hp
+      | cases hp
+
+/-- what `report_attributes` leaves behind -/
+structure AInv (c : Cfg) (s : ESt) : Prop where
+  usedLe : s.used ≤ s.lim
+  limLe : s.lim + c.evOpen + c.close + c.reserve ≤ c.cap
+  doneOk : ∀ ch ∈ s.done, ch.more = true ∧ ch.size ≤ c.cap
+  freshOk : s.fresh = true → s.used = c.hdr ∧ s.lim = c.limit
+
+/-- what `send(Done)` needs -/
+structure FInv (c : Cfg) (s : ESt) : Prop where
+  usedLe : s.used ≤ s.lim
+  limLe : s.lim + c.reserve ≤ c.cap
+  doneOk : ∀ ch ∈ s.done, ch.more = true ∧ ch.size ≤ c.cap
+
+/-- the attributes a correct answer to the request carries -/
+def selOf : Option (List AttrReq) → List Item
+  | none => []
+  | some as => selected as
+
+theorem flatMap_events_nil (l : List ChunkOut) (h : ∀ ch ∈ l, ch.events = []) :
+    l.flatMap (·.events) = [] := by
+  induction l with
+  | nil => rfl
+  | cons a l ih =>
+    simp only [List.flatMap_cons, h a (by simp), List.nil_append]
+    exact ih (fun ch hch => h ch (by simp [hch]))
+
+theorem expand_ok {c : Cfg} {lim n lim' : Nat} (h : expand c lim n = .ok lim') :
+    lim' = lim + n := by
+  unfold expand at h
+  split at h
+  · injection h with h; exact h.symm
+  · cases h
+
+theorem expand_fits {c : Cfg} {lim n : Nat} (h : lim + n ≤ c.cap) : expand c lim n = .ok (lim + n) := by
+  unfold expand
+  rw [if_pos (by omega)]
+
+theorem expand_err {c : Cfg} {lim n : Nat} {e : Err} (h : expand c lim n = .error e) : e = .noSpace := by
+  unfold expand at h
+  split at h
+  · cases h
+  · injection h with h; exact h.symm
+
+/-- the attribute section, when attribute paths are requested: the chunking of the selected items
+followed by the array end -/
+theorem attrSection_some {c : Cfg} (hw : c.WF) {as : List AttrReq} {s1 : ESt}
+    (h : attrSection c (some as) = .ok s1) :
+    ∃ s, putItems c (selected as) (St.init c) = .ok s ∧ Inv c s ∧ s1.done = s.done ∧ s1.attrs = s.cur ∧
+      s1.evs = [] ∧ s1.used = s.used + c.close ∧ s1.lim = c.limit + c.close ∧ s1.fresh = false ∧
+      s1.empty = (yielded as).isEmpty := by
+  simp only [attrSection] at h
+  rw [putAttrs_eq] at h
+  cases hp : putItems c (((yielded as).filter fun a => !a.unchanged).map (·.item)) (St.init c) with
+  | error e => rw [hp] at h; cases h
+  | ok s =>
+    rw [hp] at h
+    simp only at h
+    cases hx : expand c c.limit c.close with
+    | error e => rw [hx] at h; cases h
+    | ok lim =>
+      rw [hx] at h
+      simp only at h
+      obtain rfl := expand_ok hx
+      split at h
+      · injection h with h; subst h
+        exact ⟨s, hp, (putItems_ok hw _ _ _ (inv_init c hw) hp).1, rfl, rfl, rfl, rfl, rfl, rfl, rfl⟩
+      · cases h
+
+theorem attrSection_ok {c : Cfg} (hw : c.WF) {ra : Option (List AttrReq)} {s1 : ESt}
+    (h : attrSection c ra = .ok s1) :
+    AInv c s1 ∧ EmptyOk s1 ∧ s1.flatEv = [] ∧
+      ∃ outs, AllJustified c (selOf ra) outs ∧ s1.flatAt = allPieces (selOf ra) outs := by
+  have hlim := limit_le c hw
+  cases ra with
+  | none =>
+    simp only [attrSection] at h
+    injection h with h; subst h
+    refine ⟨⟨?_, ?_, by simp, by simp⟩, by simp [EmptyOk], by simp [ESt.flatEv], [], .nil, by simp [ESt.flatAt, selOf, allPieces]⟩
+    · have := hw.startEv; simp only; omega
+    · have := hw.struct; simp only; omega
+  | some as =>
+    obtain ⟨s, hp, hinv, hd, ha, he, hu, hl, hf, hem⟩ := attrSection_some hw h
+    obtain ⟨_, outs, hj, hflat⟩ := putItems_ok hw _ _ _ (inv_init c hw) hp
+    refine ⟨⟨?_, ?_, ?_, ?_⟩, ?_, ?_, outs, hj, ?_⟩
+    · have := hinv.usedLe; omega
+    · have := hw.struct; omega
+    · intro ch hch; rw [hd] at hch
+      exact ⟨(hinv.doneOk ch hch).1, (hinv.doneOk ch hch).2.1⟩
+    · intro hf'; rw [hf] at hf'; cases hf'
+    · intro hemp
+      rw [hem, List.isEmpty_iff] at hemp
+      have hs : s = St.init c := by
+        have : selected as = [] := by simp [selected, hemp]
+        rw [this] at hp
+        simp only [putItems] at hp
+        injection hp with hp; exact hp.symm
+      rw [hd, ha, he, hs]
+      simp [St.init]
+    · simp only [ESt.flatEv, hd, he]
+      rw [flatMap_events_nil _ (fun ch hch => (hinv.doneOk ch (List.mem_reverse.mp hch)).2.2.2)]
+      rfl
+    · simp only [ESt.flatAt, hd, ha, selOf]
+      have : (St.init c).flat = [] := by simp [St.flat, St.init]
+      rw [this, List.nil_append] at hflat
+      rw [← hflat]; rfl
+
+/-- the event reports the event section adds (the cursor's view) -/
+def evOut : Option EvReq → List EvPiece
+  | none => []
+  | some r => (r.statuses.zipIdx.map fun (sz, k) => EvPiece.status k sz) ++
+      (considered r r.maxSeen r.buf).map fun e => .data e.num e.size
+
+theorem eventSection_ok {c : Cfg} (hw : c.WF) {s s2 : ESt} {re : Option EvReq} (h : AInv c s) (hemp : EmptyOk s)
+    (hp : eventSection c s re = .ok s2) :
+    FInv c s2 ∧ EmptyOk s2 ∧ s2.flatAt = s.flatAt ∧ s2.flatEv = s.flatEv ++ evOut re := by
+  cases re with
+  | none =>
+    simp only [eventSection] at hp
+    injection hp with hp; subst hp
+    exact ⟨⟨h.usedLe, by have := h.limLe; omega, h.doneOk⟩, hemp, rfl, by simp [evOut]⟩
+  | some r =>
+    simp only [eventSection] at hp
+    cases hx : expand c s.lim c.evOpen with
+    | error e => rw [hx] at hp; cases hp
+    | ok lim =>
+      rw [hx] at hp
+      simp only at hp
+      obtain rfl := expand_ok hx
+      split at hp
+      · rename_i hfit
+        -- the state after `start_array(EventReports)`
+        have i1 : EInv c { s with lim := s.lim + c.evOpen, used := s.used + c.evOpen, base := s.used + c.evOpen, cursor := r.maxSeen } := by
+          refine ⟨hfit, by have := h.limLe; simp only; omega, h.doneOk, ?_⟩
+          intro hf
+          obtain ⟨h1, h2⟩ := h.freshOk hf
+          simp only; omega
+        have e1 : EmptyOk { s with lim := s.lim + c.evOpen, used := s.used + c.evOpen, base := s.used + c.evOpen, cursor := r.maxSeen } := hemp
+        cases hst : putEvStatuses c 0 r.statuses { s with lim := s.lim + c.evOpen, used := s.used + c.evOpen, base := s.used + c.evOpen, cursor := r.maxSeen } with
+        | error e => rw [hst] at hp; cases hp
+        | ok s3 =>
+          rw [hst] at hp
+          simp only at hp
+          obtain ⟨i2, f2, a2, c2⟩ := putEvStatuses_ok hw _ _ _ _ i1 hst
+          have e2 := putEvStatuses_empty _ _ _ _ e1 hst
+          rw [evLoop_eq_sweep c r r.buf [] s3 r.buf.length (Nat.le_refl _) (by simp) (by simp)] at hp
+          cases hsw : sweep c r r.buf s3 with
+          | error e => rw [hsw] at hp; cases hp
+          | ok s4 =>
+            rw [hsw] at hp
+            simp only at hp
+            obtain ⟨i3, f3, a3⟩ := sweep_ok hw r _ _ _ i2 hsw
+            have e3 := sweep_empty r _ _ _ e2 hsw
+            cases hx2 : expand c s4.lim c.close with
+            | error e => rw [hx2] at hp; cases hp
+            | ok lim' =>
+              rw [hx2] at hp
+              simp only at hp
+              obtain rfl := expand_ok hx2
+              split at hp
+              · rename_i hfit2
+                injection hp with hp; subst hp
+                refine ⟨⟨hfit2, by have := i3.limLe; simp only; omega, i3.doneOk⟩, e3, ?_, ?_⟩
+                · show s4.flatAt = s.flatAt
+                  rw [a3, a2]; rfl
+                · show s4.flatEv = s.flatEv ++ evOut (some r)
+                  rw [f3, f2, c2]
+                  simp [evOut, ESt.flatEv]
+              · cases hp
+      · cases hp
+
+/-- `send(Done)` always finds room for the trailer -/
+theorem sendDone_ok {c : Cfg} (hw : c.WF) {s : ESt} (h : FInv c s) :
+    sendDone c s = .ok (({ pieces := s.attrs.reverse, events := s.evs.reverse, size := s.used + c.trailerDone, more := false } :: s.done).reverse) := by
+  unfold sendDone
+  rw [expand_fits h.limLe]
+  simp only
+  rw [if_pos (by have := h.usedLe; have := hw.trailerDone; omega)]
+
+/-! ## the responder always ends -/
+
+theorem attrSection_total {c : Cfg} (hw : c.WF) (ra : Option (List AttrReq))
+    (hst : ∀ it ∈ selOf ra, c.hdr + c.arrOpen + it.st ≤ c.limit) : ∃ s1, attrSection c ra = .ok s1 := by
+  have hlim := limit_le c hw
+  cases ra with
+  | none => exact ⟨_, rfl⟩
+  | some as =>
+    simp only [attrSection]
+    rw [putAttrs_eq]
+    obtain ⟨s, hp⟩ := putItems_total hw (selected as) (St.init c) (inv_init c hw) hst
+    simp only [selected] at hp
+    rw [hp]
+    simp only
+    rw [expand_fits (by have := hw.struct; omega)]
+    simp only
+    rw [if_pos (by have := (putItems_ok hw _ _ _ (inv_init c hw) hp).1.usedLe; omega)]
+    exact ⟨_, rfl⟩
+
+theorem attrSection_err {c : Cfg} {ra : Option (List AttrReq)} {e : Err}
+    (h : attrSection c ra = .error e) : e = .noSpace := by
+  cases ra with
+  | none => cases h
+  | some as =>
+    simp only [attrSection] at h
+    rw [putAttrs_eq] at h
+    cases hp : putItems c (((yielded as).filter fun a => !a.unchanged).map (·.item)) (St.init c) with
+    | error e' => rw [hp] at h; injection h with h; subst h; exact putItems_err _ _ _ hp
+    | ok s =>
+      rw [hp] at h
+      simp only at h
+      cases hx : expand c c.limit c.close with
+      | error e' => rw [hx] at h; injection h with h; subst h; exact expand_err hx
+      | ok lim =>
+        rw [hx] at h
+        simp only at h
+        split at h
+        · cases h
+        · injection h with h; exact h.symm
+
+/-- every event report that may have to go into an empty event message fits one -/
+def EvFits (c : Cfg) : Option EvReq → Prop
+  | none => True
+  | some r => (∀ sz ∈ r.statuses, c.hdr + c.evOpen + sz ≤ c.limit) ∧
+      ∀ e ∈ r.buf, r.passes e = true → c.hdr + c.evOpen + e.size ≤ c.limit
+
+theorem eventSection_total {c : Cfg} (hw : c.WF) {s : ESt} (re : Option EvReq) (h : AInv c s)
+    (hf : EvFits c re) : ∃ s2, eventSection c s re = .ok s2 := by
+  cases re with
+  | none => exact ⟨_, rfl⟩
+  | some r =>
+    obtain ⟨hf1, hf2⟩ := hf
+    simp only [eventSection]
+    rw [expand_fits (by have := h.limLe; omega)]
+    simp only
+    rw [if_pos (by have := h.usedLe; omega)]
+    have i1 : EInv c { s with lim := s.lim + c.evOpen, used := s.used + c.evOpen, base := s.used + c.evOpen, cursor := r.maxSeen } := by
+      refine ⟨by have := h.usedLe; simp only; omega, by have := h.limLe; simp only; omega, h.doneOk, ?_⟩
+      intro hfr
+      obtain ⟨h1, h2⟩ := h.freshOk hfr
+      simp only; omega
+    obtain ⟨s3, hst⟩ := putEvStatuses_fits (c := c) r.statuses 0 { s with lim := s.lim + c.evOpen, used := s.used + c.evOpen, base := s.used + c.evOpen, cursor := r.maxSeen } hf1
+    rw [hst]
+    simp only
+    obtain ⟨i2, _⟩ := putEvStatuses_ok hw _ _ _ _ i1 hst
+    rw [evLoop_eq_sweep c r r.buf [] s3 r.buf.length (Nat.le_refl _) (by simp) (by simp)]
+    obtain ⟨s4, hsw⟩ := sweep_fits hw r r.buf s3 i2 hf2
+    rw [hsw]
+    simp only
+    obtain ⟨i3, _⟩ := sweep_ok hw r _ _ _ i2 hsw
+    rw [expand_fits (by have := i3.limLe; omega)]
+    simp only
+    rw [if_pos (by have := i3.usedLe; omega)]
+    exact ⟨_, rfl⟩
+
+theorem putEvStatus_err {c : Cfg} {s : ESt} {k sz : Nat} {e : Err} (h : putEvStatus c s k sz = .error e) :
+    e = .noSpace := by
+  unfold putEvStatus at h
+  split at h
+  · cases h
+  · split at h
+    · cases h
+    · injection h with h; exact h.symm
+
+theorem putEvStatuses_err {c : Cfg} : ∀ (szs : List Nat) (k : Nat) (s : ESt) (e : Err),
+    putEvStatuses c k szs s = .error e → e = .noSpace := by
+  intro szs
+  induction szs with
+  | nil => intro k s e h; simp [putEvStatuses] at h
+  | cons sz szs ih =>
+    intro k s e h
+    simp only [putEvStatuses] at h
+    cases h1 : putEvStatus c s k sz with
+    | error e' => rw [h1] at h; injection h with h; subst h; exact putEvStatus_err h1
+    | ok s1 => rw [h1] at h; exact ih _ _ _ h
+
+theorem eventSection_err {c : Cfg} {s : ESt} {re : Option EvReq} {e : Err}
+    (h : eventSection c s re = .error e) : e = .noSpace ∨ e = .tooBig := by
+  cases re with
+  | none => cases h
+  | some r =>
+    simp only [eventSection] at h
+    cases hx : expand c s.lim c.evOpen with
+    | error e' => rw [hx] at h; injection h with h; subst h; exact .inl (expand_err hx)
+    | ok lim =>
+      rw [hx] at h
+      simp only at h
+      split at h
+      · cases hst : putEvStatuses c 0 r.statuses { s with lim := lim, used := s.used + c.evOpen, base := s.used + c.evOpen, cursor := r.maxSeen } with
+        | error e' => rw [hst] at h; injection h with h; subst h; exact .inl (putEvStatuses_err _ _ _ _ hst)
+        | ok s3 =>
+          rw [hst] at h
+          simp only at h
+          rw [evLoop_eq_sweep c r r.buf [] s3 r.buf.length (Nat.le_refl _) (by simp) (by simp)] at h
+          cases hsw : sweep c r r.buf s3 with
+          | error e' => rw [hsw] at h; injection h with h; subst h; exact .inr (sweep_err r _ _ _ hsw)
+          | ok s4 =>
+            rw [hsw] at h
+            simp only at h
+            cases hx2 : expand c s4.lim c.close with
+            | error e' => rw [hx2] at h; injection h with h; subst h; exact .inl (expand_err hx2)
+            | ok lim' =>
+              rw [hx2] at h
+              simp only at h
+              split at h
+              · cases h
+              · injection h with h; exact .inl h.symm
+      · injection h with h; exact .inl h.symm
+
+/-! ## attribute reports come before event reports -/
+
+/-- no attribute report follows an event report -/
+def Ordered : List ChunkOut → Prop
+  | [] => True
+  | ch :: rest => (ch.events ≠ [] → ∀ x ∈ rest, x.pieces = []) ∧ Ordered rest
+
+theorem ordered_of_no_events : ∀ l : List ChunkOut, (∀ ch ∈ l, ch.events = []) → Ordered l := by
+  intro l
+  induction l with
+  | nil => intro _; trivial
+  | cons a l ih =>
+    intro h
+    exact ⟨fun hne => absurd (h a (by simp)) hne, ih (fun ch hch => h ch (by simp [hch]))⟩
+
+/-- a message without attribute reports may follow -/
+theorem ordered_snoc : ∀ (l : List ChunkOut) (e : ChunkOut), Ordered l → e.pieces = [] → Ordered (l ++ [e]) := by
+  intro l
+  induction l with
+  | nil => intro e _ _; exact ⟨fun _ x hx => absurd hx List.not_mem_nil, trivial⟩
+  | cons a l ih =>
+    intro e h he
+    show (a.events ≠ [] → ∀ x ∈ l ++ [e], x.pieces = []) ∧ Ordered (l ++ [e])
+    refine ⟨?_, ih e h.2 he⟩
+    intro hne x hx
+    simp only [List.mem_append, List.mem_singleton] at hx
+    rcases hx with hx | rfl
+    · exact h.1 hne x hx
+    · exact he
+
+/-- the last message may get more event reports -/
+theorem ordered_last : ∀ (l : List ChunkOut) (a b : ChunkOut), Ordered (l ++ [a]) → b.pieces = a.pieces →
+    Ordered (l ++ [b]) := by
+  intro l
+  induction l with
+  | nil => intro a b _ _; exact ⟨fun _ x hx => absurd hx List.not_mem_nil, trivial⟩
+  | cons c l ih =>
+    intro a b h hb
+    have h' : (c.events ≠ [] → ∀ x ∈ l ++ [a], x.pieces = []) ∧ Ordered (l ++ [a]) := h
+    show (c.events ≠ [] → ∀ x ∈ l ++ [b], x.pieces = []) ∧ Ordered (l ++ [b])
+    refine ⟨?_, ih a b h'.2 hb⟩
+    intro hne x hx
+    simp only [List.mem_append, List.mem_singleton] at hx
+    rcases hx with hx | rfl
+    · exact h'.1 hne x (by simp [hx])
+    · rw [hb]; exact h'.1 hne a (by simp)
+
+/-- the messages sent so far and the open one -/
+def ESt.all (s : ESt) : List ChunkOut :=
+  s.done.reverse ++ [{ pieces := s.attrs.reverse, events := s.evs.reverse, size := 0, more := false }]
+
+def OInv (s : ESt) : Prop := Ordered s.all
+
+theorem writeEv_ordered {s : ESt} (p : EvPiece) (h : OInv s) : OInv (s.writeEv p) := by
+  unfold OInv ESt.all at *
+  exact ordered_last _ _ _ h rfl
+
+theorem flushEv_ordered {c : Cfg} {s : ESt} (h : OInv s) : OInv (s.flushEv c) := by
+  unfold OInv ESt.all at *
+  simp only [ESt.flushEv, List.reverse_cons, List.reverse_nil]
+  apply ordered_snoc _ _ _ rfl
+  exact ordered_last _ _ _ h rfl
+
+theorem putEvStatus_ordered {c : Cfg} {s s' : ESt} {k sz : Nat} (h : OInv s)
+    (hp : putEvStatus c s k sz = .ok s') : OInv s' := by
+  unfold putEvStatus at hp
+  split at hp
+  · injection hp with hp; subst hp; exact writeEv_ordered _ h
+  · split at hp
+    · injection hp with hp; subst hp; exact writeEv_ordered _ (flushEv_ordered h)
+    · cases hp
+
+theorem putEvStatuses_ordered {c : Cfg} : ∀ (szs : List Nat) (k : Nat) (s s' : ESt), OInv s →
+    putEvStatuses c k szs s = .ok s' → OInv s' := by
+  intro szs
+  induction szs with
+  | nil => intro k s s' h hp; simp [putEvStatuses] at hp; subst hp; exact h
+  | cons sz szs ih =>
+    intro k s s' h hp
+    simp only [putEvStatuses] at hp
+    cases h1 : putEvStatus c s k sz with
+    | error e => rw [h1] at hp; cases hp
+    | ok s1 => rw [h1] at hp; exact ih (k + 1) s1 s' (putEvStatus_ordered h h1) hp
+
+theorem sweep_ordered {c : Cfg} (r : EvReq) : ∀ (es : List Ev) (s s' : ESt), OInv s →
+    sweep c r es s = .ok s' → OInv s' := by
+  intro es
+  induction es with
+  | nil => intro s s' h hp; simp [sweep] at hp; subst hp; exact h
+  | cons e es ih =>
+    intro s s' h hp
+    simp only [sweep] at hp
+    have hwr : ∀ t : ESt, OInv t → OInv (t.wr e) := fun t ht => writeEv_ordered (.data e.num e.size) ht
+    repeat' split at hp
+    all_goals first
+      | exact ih _ s' (hwr _ h) hp
+      | exact ih _ s' (hwr _ (flushEv_ordered h)) hp
+      | exact ih _ s' h hp
+      | exact ih { s with cursor := e.num } s' h hp
+      | cases hp
+
+theorem attrSection_ordered {c : Cfg} (hw : c.WF) {ra : Option (List AttrReq)} {s1 : ESt}
+    (h : attrSection c ra = .ok s1) : OInv s1 := by
+  cases ra with
+  | none =>
+    simp only [attrSection] at h
+    injection h with h; subst h
+    exact ⟨fun _ x hx => absurd hx List.not_mem_nil, trivial⟩
+  | some as =>
+    obtain ⟨s, _, hinv, hd, _, he, _⟩ := attrSection_some hw h
+    apply ordered_of_no_events
+    intro ch hch
+    simp only [ESt.all, List.mem_append, List.mem_reverse, List.mem_singleton] at hch
+    rcases hch with hch | rfl
+    · rw [hd] at hch; exact (hinv.doneOk ch hch).2.2.2
+    · simp [he]
+
+theorem eventSection_ordered {c : Cfg} {s s2 : ESt} {re : Option EvReq} (h : OInv s)
+    (hp : eventSection c s re = .ok s2) : OInv s2 := by
+  cases re with
+  | none => simp only [eventSection] at hp; injection hp with hp; subst hp; exact h
+  | some r =>
+    simp only [eventSection] at hp
+    cases hx : expand c s.lim c.evOpen with
+    | error e => rw [hx] at hp; cases hp
+    | ok lim =>
+      rw [hx] at hp
+      simp only at hp
+      split at hp
+      · cases hst : putEvStatuses c 0 r.statuses { s with lim := lim, used := s.used + c.evOpen, base := s.used + c.evOpen, cursor := r.maxSeen } with
+        | error e => rw [hst] at hp; cases hp
+        | ok s3 =>
+          rw [hst] at hp
+          simp only at hp
+          have o3 : OInv s3 := putEvStatuses_ordered _ _ _ _ (show OInv { s with lim := lim, used := s.used + c.evOpen, base := s.used + c.evOpen, cursor := r.maxSeen } from h) hst
+          rw [evLoop_eq_sweep c r r.buf [] s3 r.buf.length (Nat.le_refl _) (by simp) (by simp)] at hp
+          cases hsw : sweep c r r.buf s3 with
+          | error e => rw [hsw] at hp; cases hp
+          | ok s4 =>
+            rw [hsw] at hp
+            simp only at hp
+            have o4 := sweep_ordered r _ _ _ o3 hsw
+            cases hx2 : expand c s4.lim c.close with
+            | error e => rw [hx2] at hp; cases hp
+            | ok lim' =>
+              rw [hx2] at hp
+              simp only at hp
+              split at hp
+              · injection hp with hp; subst hp; exact o4
+              · cases hp
+      · cases hp
 
 end Chunk
